@@ -325,7 +325,7 @@ prop("C19", shards=16, pkg="props_race", race=True, timeout=(1200, 7200),
                 "Schedule-dependent failures do not shrink (rapid reports them as flaky; the driver still reports the violation).")
 
 prop("C20", shards=16, pkg="props_race", race=True, timeout=(1200, 7200),
-     technique="rapid-generated goroutine plans with yield perturbation under the race detector; recorded histories checked for linearizability (porcupine) against a FIFO-with-close specification plus direct invariants; thousands of rounds of the bounded queue at the moment it becomes full",
+     technique="rapid-generated schedules executed by a controller that owns the interleaving (operation granularity, and lock-acquisition granularity through a hook in sync.Mutex.Lock added to the test binary by -overlay) with exhaustive enumeration of all schedules of small configurations; rapid-generated goroutine plans with yield perturbation under the race detector; recorded histories checked for linearizability (porcupine) against a FIFO-with-close specification plus direct invariants; thousands of rounds of the bounded queue at the moment it becomes full",
      rule="C20Queue: LinkedListQueue and ChannelQueue(n in {0,1,4,64}); 1..8 producers x 1..8 consumers x one closer that runs after "
           "the producers' WaitGroup; items tagged (producer, seq); a generated yield (Gosched x1..3, 10/50 us sleep) before every "
           "push/pull and before Close; consumers optionally parked before the first push. Oracle: every history: accepted pushes "
@@ -339,11 +339,16 @@ prop("C20", shards=16, pkg="props_race", race=True, timeout=(1200, 7200),
           "issuing ClientJoin/ClientLeft/CheckPlayer/Len/OnlinePlayer/PlayerSamples on a list of capacity 1..8: no sample exceeds "
           "the capacity, empty at the end. The race detector watches every run. Non-trivial: >= 2 producers and >= 2 consumers "
           "with consumers parked first or more items than consumers; more goroutines than capacity. Distinct: hash of the plan.",
-     level_text="Sampling of schedules (weakest evidence in the set): the harness does not own the Go scheduler; yields and the race "
-                "detector expose gross errors (missing Signal/Broadcast, double delivery, pooled buffer retained).",
+     level_text="Queues and player list: generated and (for small configurations) exhaustively enumerated schedules at operation and at "
+                "lock-acquisition granularity, executed deterministically by a controller - a failing interleaving is a replayable, "
+                "shrinkable case. Pools/type cache and code that synchronises without sync.Mutex/RWMutex: sampling of whatever the Go "
+                "scheduler produces under yields and the race detector.",
      level_note="Trusted: porcupine v1.3.0, harness/ref/fifo, sync/atomic logical clock for call/return stamps. Wall-clock limits are "
-                "hang detectors applied only in states no later event can change. A rare interleaving may be missed; failures do "
-                "not shrink.")
+                "hang detectors applied only in states no later event can change. In the uncontrolled tests a rare interleaving may be "
+                "missed and failures do not shrink. Controlled tests: quiescence = a stop-the-world goroutine dump in which no goroutine "
+                "but the controller is running/runnable/sleeping; the standard library's sync package of the props_race test binary gets "
+                "one inserted line per Lock method (generated from the installed toolchain, /verif/overlay_std); interleavings inside "
+                "code that uses atomics or channels only are not controlled.")
 
 # ---- additions made while strengthening the checks against the seeded changes (rounds 1-3; DESIGN.md §11.4) ----
 # kept as addenda so that the original statement of each rule stays readable
@@ -419,6 +424,9 @@ _RULE_ADDENDA_R6 = {
     'C16': ' Round 6: passwords of 255..1031 bytes sharing a prefix, lengths differing by multiples of 256.',
     'C19': " Round 6: the harness LoginChecker records the (name, uuid) it is asked about: it must be the player's name and offline UUID.",
 }
+_RULE_ADDENDA_R7 = {
+    'C20': " Round 7 (own work): C20Sched - thread programs of push/pull/close, ONE operation released at a time by a generated schedule, whole-process quiescence awaited after each, every result compared step by step with the sequential FIFO-with-close model (parked consumers: exactly one is served per push, all are released by Close; bounded Push refuses iff full and nobody waits), nobody parked in Pull while the model holds an item or is closed, nobody parked in Push; TestC20SchedEnum: all schedules of 16 configurations (quick: first 1200 each). C20Fine - the same programs with a release at every sync.Mutex/RWMutex Lock (a goroutine woken by Signal/Broadcast stops before re-acquiring the lock): history linearizable (porcupine), no consumer parked while accepted > delivered or after Close, no Push/Close parked; TestC20FineEnum: all lock-granularity schedules of 16 configurations (quick: first 1500 each). C20FinePlayers - join/left/len/samples/check programs on a list of capacity 1..3 with more joiners than capacity under lock-granularity schedules: no observation and no final state exceeds the capacity.",
+}
 for _pid, _txt in _RULE_ADDENDA_R3.items():
     PROPS[_pid]["rule"] = PROPS[_pid].get("rule", "") + _txt
 for _pid, _txt in _RULE_ADDENDA_R4.items():
@@ -426,4 +434,6 @@ for _pid, _txt in _RULE_ADDENDA_R4.items():
 for _pid, _txt in _RULE_ADDENDA_R5.items():
     PROPS[_pid]["rule"] = PROPS[_pid].get("rule", "") + _txt
 for _pid, _txt in _RULE_ADDENDA_R6.items():
+    PROPS[_pid]["rule"] = PROPS[_pid].get("rule", "") + _txt
+for _pid, _txt in _RULE_ADDENDA_R7.items():
     PROPS[_pid]["rule"] = PROPS[_pid].get("rule", "") + _txt
